@@ -190,7 +190,10 @@ class Ctx:
             # the race detector spoke: each distinct report whose stacks lie in the repository is a violation
             seen = set()
             for blk in races:
-                frames = re.findall(r"(/repo/[\w./-]+\.go:\d+)", blk)
+                # the two conflicting accesses: the innermost frame of each; at least one must be the library's
+                # (a race between two statements of the harness is the harness's bug, not a finding)
+                acc = re.findall(r"(?:^|\n)(?:Previous )?(?:[Aa]tomic )?(?:[Ww]rite|[Rr]ead) at [^\n]*\n  [^\n]*\n\s+(\S+\.go:\d+)", blk)
+                frames = [a for a in acc if a.startswith("/repo/")]
                 if not frames:
                     continue
                 key = frames[0]
